@@ -209,9 +209,25 @@ def reported_ranges(nodes, reports):
     return [(l0, l0 + s.count('\n')) for l0, s, _, _ in nodes if l0 in rl]
 
 
-def fix_lines(src, ranges):
-    """mirror of `fixLines`: the lines of reported nodes fixed as the specification says, the others copied"""
-    return '\n'.join(spec_fix(l) if any(a <= i <= b for a, b in ranges) else l for i, l in enumerate(src.split('\n'), 1))
+def strictly_inside(q, r):
+    return (r[0] < q[0] and q[1] <= r[1]) or (r[0] <= q[0] and q[1] < r[1])
+
+
+def rewritten_lines(nodes, reports, nlines):
+    """mirror of `rewritten`: lines of a reported node that do not belong to a nested node with comparisons of its own"""
+    rr = reported_ranges(nodes, reports)
+    allr = [(l0, l0 + s.count('\n')) for l0, s, _, _ in nodes]
+    out = set()
+    for i in range(1, nlines + 1):
+        for r in rr:
+            if r[0] <= i <= r[1] and not any(strictly_inside(m, r) and m[0] <= i <= m[1] for m in allr):
+                out.add(i)
+    return out
+
+
+def fix_lines(src, lines_to_fix):
+    """mirror of `fixLines`: the selected lines fixed as the specification says, the others copied"""
+    return '\n'.join(spec_fix(l) if i in lines_to_fix else l for i, l in enumerate(src.split('\n'), 1))
 
 
 def line_code(l):
@@ -779,11 +795,11 @@ class C43(Prop):
         # every operator token on the lines of a reported node is gone
         # (statements kept as text - PRINT ... - are regenerated from the parser's text by every write-back: class
         # ubound-fix-reformats-statements, checked below; they are left out here)
-        expect_left = [sp for i, l in enumerate(src.split('\n'), 1)
-                       if not any(a <= i <= b for a, b in rr) and not is_frame_line(l) for _, sp in spec_viol(l)]
+        rw = rewritten_lines(nodes, res['reports'], len(src.split('\n')))
+        expect_left = [sp for i, l in enumerate(src.split('\n'), 1) if i not in rw and not is_frame_line(l) for _, sp in spec_viol(l)]
         left = [sp for l in fixed.split('\n') if not is_frame_line(l) for _, sp in spec_viol(l)]
         if sorted(left) != sorted(expect_left):
-            fails.append(Failure(f'F77 operators in code after the fix: {left!r}, expected only those outside reported statements '
+            fails.append(Failure(f'F77 operators in code after the fix: {left!r}, expected only those outside the regenerated lines of reported statements '
                                  f'{expect_left!r}', fcls))
         core = lambda t: '\n'.join(l for l in t.split('\n') if not is_frame_line(l))   # regenerated text statements: own class
         if sorted(lit_values(core(fixed))) != sorted(lit_values(core(src))):
